@@ -3,6 +3,7 @@ Props/C04.lean — a Sensor reports the global field at its pixels, in its own f
 left-handed sensors flip x; pixel_agg reduces over exactly each sensor's pixels.
 -/
 import MagpyVerif.Lemmas.Level2Shape
+import MagpyVerif.Lemmas.OctaCarrier
 namespace MagpyVerif.C04
 open MagpyVerif MagpyVerif.Level2
 variable {G V : Type}
@@ -124,5 +125,52 @@ example : (∃ out, getBH exFlip exMin exMax exEntries exSensorsMixed false fals
   · intro k hk
     simp only [exSensorsMixed, List.mem_cons, List.not_mem_nil, or_false] at hk
     rcases hk with rfl | rfl <;> simp [pixNum]
+
+
+/-! ### on the carrier the driver computes with (AUDIT X1)
+
+The driver evaluates the model at `M3 Int` / `V3 Int` (Model/Basic.lean, `⁻¹` = transpose — not a group); the
+theorems above are over an abstract `Group G`.  Lemmas/OctaCarrier.lean: on octahedral rotation matrices (`IsOct`)
+the `M3 Int` evaluation is the evaluation at the group `Oct`. -/
+section driverCarrier
+
+/-- **`sensor_frame` on the driver's carrier**: for a sensor whose orientation matrices are octahedral the three
+back-rotation code paths, evaluated with the integer matrix operations (`⁻¹` = transpose, `==` the derived
+comparison), all yield `R_k(m)ᵀ • v` on the sensor's own pixel slice -/
+theorem sensor_frame_on_driver_carrier (flipX : V3 Int → V3 Int) (k : SensZ) (hko : k.RotsOct) (hk : k.ori ≠ [])
+    (hlen : k.pos.length = k.ori.length) (lo hi : Nat) (B : List (List (List (V3 Int)))) :
+    sensorFrame flipX k lo hi B =
+      B.map fun Bl => Bl.mapIdx fun m row => row.mapIdx fun j v =>
+        if lo ≤ j ∧ j < hi then sensTOp flipX k m v else v := by
+  obtain ⟨k', rfl⟩ := exists_oct_sensor k hko
+  have hk' : k'.ori ≠ [] := by simpa [Sens.mapG] using hk
+  have hlen' : k'.pos.length = k'.ori.length := by simpa [Sens.mapG] using hlen
+  rw [sensorFrame_at_Oct_eq_at_M3Int, sensorFrame_sensT flipX k' hk' hlen']
+  simp only [sensT_eq_op, sensTOp_mapG octHom]
+
+/-- **`sensor_reading` on the driver's carrier**: the reading of sensor `k` at path index `m`, with the integer
+matrix operations (this statement only unfolds the specification; it needs no hypothesis on the matrices —
+its content comes with `C06.level2_refines_on_driver_carrier`, which says that these readings are what the
+driver's `tensor` holds) -/
+theorem sensor_reading_on_driver_carrier (flipX : V3 Int → V3 Int) (e : EntryZ) (k : SensZ) (m : Nat)
+    (r : M3 Int) (p : V3 Int) (hr : clampGet k.ori m = some r) (hp : clampGet k.pos m = some p) :
+    (pixPosOp k m).map (specValueOp flipX e k m) =
+      k.pixels.map fun px =>
+        let v := r⁻¹ • ((e.leaves.map fun s => level1 s m (r • px + p)).sum)
+        if k.left then flipX v else v := by
+  simp only [pixPosOp, hr, hp, List.map_map]
+  apply List.map_congr_left
+  intro px _
+  simp only [Function.comp, specValueOp, sensTOp, hr]
+
+-- non-vacuity (driver-style data `Level2.DriverExample`: left-handed sensor, 90° about z at its first step):
+-- hypotheses of `sensor_frame_on_driver_carrier` hold for the sensor, and a reading evaluated as the driver does
+open Level2.DriverExample in
+example : ∀ k ∈ drvSensors, k.RotsOct ∧ k.ori ≠ [] ∧ k.pos.length = k.ori.length :=
+  fun k hk => ⟨drvSensors_rotsOct k hk, (drvSensors_WF k hk).1, (drvSensors_WF k hk).2.1⟩
+open Level2.DriverExample in
+example : sensTOp (G := M3 Int) drvFlip ⟨[⟨7, 0, 0⟩, ⟨8, 1, 0⟩], [rotZ90, 1], [⟨0, 0, 0⟩, ⟨1, 0, 0⟩], [2], true⟩ 0 ⟨1, 2, 3⟩
+    = ⟨-2, -1, 3⟩ := by decide
+end driverCarrier
 
 end MagpyVerif.C04
